@@ -1143,7 +1143,7 @@ func builtinCompose(env *LEnv, args *LVal) *LVal {
 	}
 	g = env.GetFunGlobal(g)
 	if g.Type == LError {
-		return f
+		return g
 	}
 	if g.Type != LFun {
 		return env.Errorf("second argument is not a function: %s", g.Type)
